@@ -262,6 +262,8 @@ class Engine:
         self.max_paths = max_paths
         self.unsupported = []
         self.entered = set()          # (module name, def line) of every real function whose body some path executed
+        self.loop_keys_stated = set() # loop contracts with clauses that some path registered: frozensets of alternative keys
+        self.loop_keys_hit = set()    # ... and those some path applied to a loop of the code
         self.budget_s = int(os.environ.get('PYVC_EXPLORE_BUDGET_S', '120'))
         self.deadline = time.time() + self.budget_s
 
@@ -304,6 +306,13 @@ class Engine:
             finally:
                 pass
             p.trail = it.trail
+            groups = {}
+            for k, v in it.loops.items():
+                if isinstance(v, LoopSpec) and (v.inv or v.at_start or v.at_end or v.at_exit or v.at_break or v.at_entry or v.inv_n):
+                    # (one LoopSpec object registered under several keys = alternative shapes of the same loop)
+                    groups.setdefault(id(v), set()).add(k)
+            for ks in groups.values():
+                self.loop_keys_stated.add(frozenset(ks))
             for alt in it.alternatives:
                 work.append(alt)
             if p.end != 'infeasible':
@@ -622,7 +631,12 @@ class Interp:
     def call_funcdef(self, fn, args, kwargs):
         if fn.is_gen:
             return GenObj(fn, args, kwargs)
-        return self.run_body(fn, args, kwargs)
+        r = self.run_body(fn, args, kwargs)
+        if isinstance(r, GenObj) and not getattr(fn, 'is_module', False):
+            # provenance: a plain function that hands back the un-run generator of another one (a dispatcher) -- call-site
+            # contracts that name the callee (fn_named) accept the generator as the result of calling either
+            r.via = getattr(r, 'via', ()) + ((fn, tuple(args)),)
+        return r
 
     def run_body(self, fn, args, kwargs):
         """execute the body of fn (also used for running a generator's body, yields become events)"""
@@ -970,9 +984,11 @@ class Interp:
 
     def find_loop_spec(self, label):
         if label in self.loops:
+            self.engine.loop_keys_hit.add(label)
             return self.loops[label]
         for k, v in self.loops.items():
             if label.endswith('.' + k) or label.endswith('.<locals>.' + k):
+                self.engine.loop_keys_hit.add(k)
                 return v
         return None
 
@@ -988,6 +1004,16 @@ class Interp:
                 loops.sort(key=lambda n: (n.lineno, n.col_offset))
                 table = {id(n): i for i, n in enumerate(loops)}
                 fn._loop_ordinals = table
+            # a loop contract keyed by an ordinal the function does not have (loops were moved out of it / merged): the
+            # contract no longer maps onto the code -- undecided, never a verdict about some OTHER loop
+            chk = getattr(fn, '_loop_keys_checked', None)
+            if chk is not self.loops:
+                fn._loop_keys_checked = self.loops
+                for k in self.loops:
+                    nm, _, o = k.partition('#L')
+                    if o.isdigit() and int(o) >= len(table) and len(table) > 0 and \
+                            (q == nm or q.endswith('.' + nm) or q.endswith('.<locals>.' + nm)):
+                        raise Unsupported('CONTRACT-MAPPING loop contract %s: %s has only %d loop statement(s)' % (k, q, len(table)))
             if id(node) in table:
                 return '%s#L%d' % (q, table[id(node)])
             if not table and self.loop_counter.get(q, 0) == 0:
